@@ -915,6 +915,8 @@ def near_cases(rng, tier):
                     ops += resample_ops(rng, spec, tier)[:3]
             if exact and not big:
                 ops += malformed_ops(rng, spec, fam)
+            if fam in ("sel", "getitem") and not big:
+                ops += nonfinite_ops(rng, spec)
             if not ops:
                 continue
             yield dict(regime=regime, fam=fam, stream="near-big" if big else "near", mesh=spec, subs=subs,
@@ -946,6 +948,8 @@ def cases(rng, tier):
                 ops = pad_ops(rng, spec, tier)
             else:
                 ops = resample_ops(rng, spec, tier)
+            if fam in ("sel", "getitem") and k % 3 == 0:
+                ops = ops + nonfinite_ops(rng, spec)
             yield dict(regime="exact", fam=fam, mesh=spec, subs=subs, nvdim=rng.choice([1, 1, 2, 3]),
                        density=rng.choice([1.0, 0.8, 0.5]), sub=rng.getrandbits(32), ops=ops, hist=pick_hist(rng, fam, k))
     yield from meta_cases(rng, tier)
@@ -962,6 +966,8 @@ def cases(rng, tier):
                 ops = pad_ops(rng, spec, tier)[:7]
             else:
                 ops = resample_ops(rng, spec, tier)[:4]
+            if fam in ("sel", "getitem") and k % 3 == 0:
+                ops = ops + nonfinite_ops(rng, spec)
             yield dict(regime="tol", fam=fam, mesh=spec, subs=subs, nvdim=rng.choice([1, 2, 3]),
                        density=rng.choice([1.0, 0.7]), sub=rng.getrandbits(32), ops=ops, hist=pick_hist(rng, fam, k))
 
@@ -1705,7 +1711,52 @@ def run_getbad(ctx, op, r, fail):
             fail(f"[{kind} item]: malformed request accepted by {k}")
 
 
-RUNNERS = {"getbad": run_getbad, "sel": run_sel, "getname": run_getitem, "getregion": run_getitem, "r2s": run_r2s, "pad": run_pad,
+NONFINITE = {"inf": float("inf"), "-inf": float("-inf"), "nan": float("nan")}
+
+
+def nonfinite_ops(rng, spec):
+    """requests at +-inf / nan: not inside any region, so every lookup must refuse them (no rational of the model is
+    non-finite: judged on the real code alone)"""
+    dims = dims_of(spec)
+    ops = []
+    for v in rng.sample(list(NONFINITE), 2):
+        ax = rng.randrange(len(dims))
+        ops.append(dict(op="nonfinite", dim=dims[ax], ax=ax, v=v, np=rng.random() < 0.5,
+                        tag="nonfinite-" + v, xt=["nonfinite:" + v]))
+    return ops
+
+
+def run_nonfinite(ctx, op, r, fail):
+    f, mesh = ctx.f, ctx.mesh
+    v = NONFINITE[op["v"]]
+    if op.get("np"):
+        v = np.float64(v)
+    ax = op["ax"]
+    x = float(mesh.region.center[ax])
+    lo = [float(t) for t in mesh.region.pmin]
+    hi = [float(t) for t in mesh.region.pmax]
+    pt = [float(t) for t in mesh.region.center]
+    pt[ax] = v
+    hi2 = list(hi)
+    hi2[ax] = v
+    lo2 = list(lo)
+    lo2[ax] = v
+    calls = {"mesh.sel(point)": lambda: mesh.sel(**{op["dim"]: v}), "field.sel(point)": lambda: f.sel(**{op["dim"]: v}),
+             "mesh.sel(range hi)": lambda: mesh.sel(**{op["dim"]: (x, v)}), "field.sel(range hi)": lambda: f.sel(**{op["dim"]: (x, v)}),
+             "mesh.sel(range lo)": lambda: mesh.sel(**{op["dim"]: (v, x)}), "field.sel(range lo)": lambda: f.sel(**{op["dim"]: (v, x)}),
+             "mesh[region hi]": lambda: mesh[df.Region(p1=lo, p2=hi2)], "field[region hi]": lambda: f[df.Region(p1=lo, p2=hi2)],
+             "mesh[region lo]": lambda: mesh[df.Region(p1=lo2, p2=hi)], "mesh.region2slices": lambda: mesh.region2slices(df.Region(p1=lo, p2=hi2)),
+             "mesh.point2index": lambda: mesh.point2index(pt), "field(point)": lambda: f(pt)}
+    r["expect"] = "err"
+    r["calls"] = {}
+    for name, fn in calls.items():
+        got = attempt(fn)
+        r["calls"][name] = got[0]
+        if got[0] != "err":
+            fail(f"[{op['v']} along {op['dim']}] {name}: a request at a non-finite coordinate (outside every region) was accepted")
+
+
+RUNNERS = {"nonfinite": run_nonfinite, "getbad": run_getbad, "sel": run_sel, "getname": run_getitem, "getregion": run_getitem, "r2s": run_r2s, "pad": run_pad,
            "resample": run_resample}
 
 
@@ -1828,7 +1879,7 @@ def model_requests(case, obs):
 FAM_OF = {"sel": "sel", "getname": "getitem", "getregion": "getitem", "pad": "pad", "resample": "resample", "r2s": "getitem"}
 
 
-NREQ = {"sel": 3, "getname": 2, "getregion": 2, "r2s": 1, "pad": 2, "resample": 1, "getbad": 0}
+NREQ = {"sel": 3, "getname": 2, "getregion": 2, "r2s": 1, "pad": 2, "resample": 1, "getbad": 0, "nonfinite": 0}
 
 
 def nreq(op):
